@@ -459,3 +459,37 @@ for _E, _M, _s in SR_ALL:
     _tier = "quick" if (_E, _M, _s) in SR_QUICK else "thorough"
     for _g in ("core", "neighbour", "threshold_normal", "threshold_subnormal", "spec_lemmas"):
         register(Job(f"c14:quantise[E{_E}M{_M},sr={_s},{_g}]", ["C14"], FM + "FPFormat.quantise", {"E": _E, "M": _M, "srbits": _s, "group": _g}, _sr_job(_E, _M, _s, _g), tier=_tier))
+
+
+# ---------------------------------------------------------------- C15: a lossless format is the identity
+
+
+def _lossless_job(rounding: str) -> Callable[[], Record]:
+    def run() -> Record:
+        qual = FM + "FPFormat.quantise"
+        tag = f"C15:formats.FPFormat.quantise[E8M23,{rounding}]"
+
+        def build(ctx: Ctx) -> Any:
+            it = mk_bit_interp(ctx, [qual])
+            fmt = mk_format(it, 8, 23, rounding)
+            x = fp32("x")
+            preconditions(ctx, 8, x)
+            xt = BitTensor(Shape([Run(ctx, "a")]), "float32", x, Storage("input:x"), "x")
+            return it, lambda: it.call(lookup_fn(it, qual), [fmt, xt], {})
+
+        def post(p: PathResult, i: int) -> Any:
+            ctx = p.ctx
+            x = fp32("x")
+            if p.outcome != "return" or not isinstance(p.value, BitTensor):
+                ctx.oblige(f"{tag}:no_exception", False, exc=str(p.exc))
+                return None
+            ctx.oblige(f"{tag}:lossless_format_is_the_identity_bit_for_bit(|x|<2^126, every random draw)", z3.fpToIEEEBV(p.value.elem) == z3.fpToIEEEBV(x), timeout_ms=600000, bit_precise=True)
+            return {"x_bits": z3.fpToIEEEBV(x)}
+
+        return run_config(qual, {"E": 8, "M": 23, "rounding": rounding}, build, post)
+
+    return run
+
+
+for _r in ("nearest", "stochastic"):
+    register(Job(f"c15:lossless[E8M23,{_r}]", ["C15"], FM + "FPFormat.quantise", {"rounding": _r}, _lossless_job(_r)))
